@@ -59,10 +59,15 @@ func (c *concurrentStreamMapperProvider[SRC, TGT]) stopProducer() {
 
 func (c *concurrentStreamMapperProvider[SRC, TGT]) Open(ctx context.Context, srcProviderFunc ProviderFunc[SRC]) error {
 
+	// The goroutines started below use the channels of this materialization only (and not the fields, which are
+	// replaced when the stream is opened again while goroutines of the previous materialization are winding down)
+
 	// Source channel has concurrency length to allow for concurrent reads
-	c.srcChan = make(chan shpanstream.Result[SRC], c.concurrency)
+	srcChan := make(chan shpanstream.Result[SRC], c.concurrency)
 	// Target channel has concurrency length to allow for concurrent reads
-	c.tgtChan = make(chan shpanstream.Result[TGT], c.concurrency)
+	tgtChan := make(chan shpanstream.Result[TGT], c.concurrency)
+	c.srcChan = srcChan
+	c.tgtChan = tgtChan
 
 	eofCtx, eofCancelFunc := context.WithCancel(context.Background())
 	c.eofCtx = eofCtx
@@ -78,14 +83,14 @@ func (c *concurrentStreamMapperProvider[SRC, TGT]) Open(ctx context.Context, src
 				case <-ctx.Done():
 					// If the context is done, exit the goroutine
 					return
-				case entry, stillGood := <-c.srcChan:
+				case entry, stillGood := <-srcChan:
 					if !stillGood {
 						return
 					}
 					// Check if src had error
 					if entry.Err != nil {
 						select {
-						case c.tgtChan <- shpanstream.Result[TGT]{Err: entry.Err}:
+						case tgtChan <- shpanstream.Result[TGT]{Err: entry.Err}:
 						case <-ctx.Done():
 							return
 						}
@@ -97,13 +102,13 @@ func (c *concurrentStreamMapperProvider[SRC, TGT]) Open(ctx context.Context, src
 						if err != nil {
 							select {
 							// Wrapping errors, e.g. we don't want EOF accidentally returned from here
-							case c.tgtChan <- shpanstream.Result[TGT]{Err: fmt.Errorf("map failed for Stream: %w", err)}:
+							case tgtChan <- shpanstream.Result[TGT]{Err: fmt.Errorf("map failed for Stream: %w", err)}:
 							case <-ctx.Done():
 								return
 							}
 						} else {
 							select {
-							case c.tgtChan <- shpanstream.Result[TGT]{Value: tgt}:
+							case tgtChan <- shpanstream.Result[TGT]{Value: tgt}:
 							case <-ctx.Done():
 								return
 							}
@@ -125,10 +130,10 @@ func (c *concurrentStreamMapperProvider[SRC, TGT]) Open(ctx context.Context, src
 		defer func() {
 			// Closing the channel, the workers will still process the remaining buffered messages (if any)
 			//(yes, this is how channels work)
-			close(c.srcChan)
+			close(srcChan)
 			// Waiting for all workers to exit properly
 			wg.Wait()
-			close(c.tgtChan)
+			close(tgtChan)
 		}()
 		// Signal (before waiting for the workers) that the source stream is not used anymore
 		defer close(producerStopped)
@@ -151,14 +156,14 @@ func (c *concurrentStreamMapperProvider[SRC, TGT]) Open(ctx context.Context, src
 						// If an error occurs, just pass it through the buffer, it will get there
 						select {
 
-						case c.srcChan <- shpanstream.Result[SRC]{Err: err}:
+						case srcChan <- shpanstream.Result[SRC]{Err: err}:
 						case <-producerCtx.Done():
 							return
 						}
 					}
 				} else {
 					select {
-					case c.srcChan <- shpanstream.Result[SRC]{Value: v}:
+					case srcChan <- shpanstream.Result[SRC]{Value: v}:
 					case <-producerCtx.Done():
 						return
 					}
